@@ -155,7 +155,7 @@ func (e *Env) open() error {
 	// FracManager.Start runs one maintenance pass at once in its own goroutine (util.RunEvery). Drivers
 	// that run maintenance passes themselves (VerifMaintenance) must not overlap with it - two concurrent
 	// passes cannot happen in production. The pass ends by rewriting .frac-cache (new inode): wait for it.
-	for i := 0; i < 5000; i++ {
+	for i := 0; i < 120000; i++ {
 		if now := fileIno(fcPath); now != 0 && now != before {
 			break
 		}
